@@ -21,6 +21,7 @@ Read as flags / constants (Definition gen_... : bool / N):
     subscribe/mod.rs Vec::downcast_raw: NoneLayerMarker answered iff self.is_empty()
     subscribe/mod.rs Option::None: register_callsite always, max_level_hint Some(OFF), enabled true
     filter/.../mod.rs Filtered::register_callsite: inner asked iff !interest.is_never(), its answer dropped, returns always
+    filter/targets.rs Targets::interested / enabled / max_level_hint all read the DirectiveSet (enabled(metadata), max_level)
     filter/env/mod.rs EnvFilter::max_level_hint: TRACE when value filters exist, else max(statics.max_level, dynamics.max_level)
     filter/directive.rs DirectiveSet::add raises max_level, and recomputes it over all directives after a replacement
 
@@ -802,6 +803,24 @@ def main(repo, _unused=None):
             "self.pick_level_hint( self.subscriber.max_level_hint(), self.inner.max_level_hint(), super::subscriber_is_none(&self.inner), )")
         and norm(fn_body(layered_col_impl(), "max_level_hint", "Layered as Collect")) == norm(
             "self.pick_level_hint( self.subscriber.max_level_hint(), self.inner.max_level_hint(), super::collector_is_none(&self.inner), )")))
+
+    targets_src = load("filter/targets.rs")
+
+    def targets_fn(name, header):
+        return fn_body(block_after(targets_src, header, "targets.rs " + name), name, "Targets")
+    # Targets: the static summary (`interested`, behind register_callsite / callsite_enabled) and the dynamic decision
+    # (`enabled`) both go through DirectiveSet::enabled (which honours field-name directives); the hint is max_level
+    flag("gen_targets_summaries", lambda: (
+        norm(targets_fn("interested", r"impl\s+Targets\s*\{")) == norm(
+            "if self.0.enabled(metadata) { Interest::always() } else { Interest::never() }")
+        and all(norm(targets_fn(fn, hdr)) == norm(body) for hdr in (
+            r"impl\s*<\s*C\s*>\s*subscribe::Subscribe\s*<\s*C\s*>\s*for\s+Targets\s*where[^{]*\{",
+            r"impl\s*<\s*C\s*>\s*subscribe::Filter\s*<\s*C\s*>\s*for\s+Targets\s*\{")
+            for fn, body in (("enabled", "self.0.enabled(metadata)"), ("max_level_hint", "Some(self.0.max_level)")))
+        and norm(targets_fn("register_callsite", r"impl\s*<\s*C\s*>\s*subscribe::Subscribe\s*<\s*C\s*>\s*for\s+Targets\s*where[^{]*\{")) == norm("self.interested(metadata)")
+        and norm(targets_fn("callsite_enabled", r"impl\s*<\s*C\s*>\s*subscribe::Filter\s*<\s*C\s*>\s*for\s+Targets\s*\{")) == norm("self.interested(metadata)")
+        and norm(fn_body(block_after(directive, r"impl\s+DirectiveSet\s*<\s*StaticDirective\s*>\s*\{", "impl DirectiveSet<StaticDirective>"), "enabled", "DirectiveSet")) == norm(
+            "let level = meta.level(); match self.directives_for(meta).next() { Some(d) => d.level >= *level, None => false, }")))
 
     def filtered_impl():
         return block_after(psf, r"impl\s*<\s*C\s*,\s*S\s*,\s*F\s*>\s*Subscribe\s*<\s*C\s*>\s*for\s+Filtered\s*<\s*S\s*,\s*F\s*,\s*C\s*>\s*where[^{]*\{", "impl Subscribe for Filtered")
